@@ -32,6 +32,7 @@ type c03Point struct {
 	menu   int
 	choice int
 	pos    int
+	file   int
 }
 
 type c03Reader struct {
@@ -44,6 +45,10 @@ type c03Reader struct {
 	allChunk bool  // menu = every chunk size (exhaustive chunking mode)
 	bounds   []int // ends of the complete values (exclusive offsets)
 	diverged bool
+
+	env   *c03Reader // non-nil: choice points and schedule live in this (primary) reader
+	file  int
+	prior int // output bytes that must be written before this reader is asked for anything (earlier files)
 
 	// incrementality monitor
 	out     *c03Writer
@@ -99,29 +104,36 @@ func (r *c03Reader) menu() []c03Answer {
 
 func (r *c03Reader) Read(p []byte) (int, error) {
 	r.reads++
+	e := r
+	if r.env != nil {
+		e = r.env
+	}
+	if r.prior > 0 && r.out.n < r.prior && e.late == "" {
+		e.late = fmt.Sprintf("Read #%d on input %d issued although only %d of the %d output bytes of the complete values of the earlier inputs are written", r.reads, r.file+1, r.out.n, r.prior)
+	}
 	if r.ended {
 		return 0, r.endErr
 	}
 	// monitor: a Read issued although a complete value plus one following byte was already handed out
 	// and that value's output is not written yet means the interpreter waits for later input
-	if r.cum != nil && r.late == "" {
+	if r.cum != nil && e.late == "" {
 		for i, b := range r.bounds {
 			if b+1 <= r.pos && r.out.n < r.cum[i+1] {
-				r.late = fmt.Sprintf("Read #%d issued with %d bytes handed out: value %d ended at offset %d but only %d of its %d output bytes are written", r.reads, r.pos, i+1, b, r.out.n, r.cum[i+1])
+				e.late = fmt.Sprintf("Read #%d issued with %d bytes handed out: value %d ended at offset %d but only %d of its %d output bytes are written", r.reads, r.pos, i+1, b, r.out.n, r.cum[i+1])
 				break
 			}
 		}
 	}
 	m := r.menu()
 	choice := 0
-	if len(r.points) < len(r.sched) {
-		choice = r.sched[len(r.points)]
+	if len(e.points) < len(e.sched) {
+		choice = e.sched[len(e.points)]
 		if choice >= len(m) {
-			r.diverged = true
+			e.diverged = true
 			choice = 0
 		}
 	}
-	r.points = append(r.points, c03Point{len(m), choice, r.pos})
+	e.points = append(e.points, c03Point{len(m), choice, r.pos, r.file})
 	a := m[choice]
 	if a.zero {
 		r.zeroRun++
@@ -363,6 +375,354 @@ func c03Explore(c *fw.Ctx, cs *c03Case, ex *c03Expect, prefix []int, used int, c
 	return nil
 }
 
+// ----- several inputs: every reader is explored, and nothing may be asked of a later input before the earlier ones are done -----
+
+type c03MultiFile struct {
+	Data  string `json:"data"`
+	Fault bool   `json:"fault,omitempty"`
+}
+
+type c03Multi struct {
+	Files []c03MultiFile `json:"files"`
+	Prog  int            `json:"prog"`
+	Bound int            `json:"bound"`
+	Sched []int          `json:"sched,omitempty"`
+}
+
+type c03MultiExpect struct {
+	bounds [][]int
+	cum    [][]int    // cum[f][i]: output bytes (without END rules) once files < f are complete and i values of file f are processed
+	full   [][]string // the same with the END rules run, for a normal end at that point
+	status []StreamStatus
+	nvals  []int
+	badAt  int // first file that is not a clean stream (by content), len(files) if none
+}
+
+func c03MultiModel(prog int, files []c03MultiFile) c03MultiExpect {
+	p := c03Progs[prog]
+	noEnd := &Program{}
+	for _, r := range p.Rules {
+		if r.Kind != "END" {
+			noEnd.Rules = append(noEnd.Rules, r)
+		}
+	}
+	e := c03MultiExpect{badAt: len(files)}
+	var done []ModelFile
+	for f, mf := range files {
+		st := ParseStream([]byte(mf.Data))
+		e.status = append(e.status, st.Status)
+		e.nvals = append(e.nvals, len(st.Values))
+		if st.Status != StreamClean && e.badAt == len(files) {
+			e.badAt = f
+		}
+		var bounds, cum []int
+		var full []string
+		var nodes []*JNode
+		name := fmt.Sprintf("in%d.json", f+1)
+		for i := 0; i <= len(st.Values); i++ {
+			if i > 0 {
+				nodes = append(nodes, st.Values[i-1].Node)
+				bounds = append(bounds, st.Values[i-1].End)
+			}
+			cur := append(append([]ModelFile{}, done...), ModelFile{Name: name, Values: nodes})
+			cum = append(cum, len(RunProgram(noEnd, cur, nil, probeKeyOrder, 0).Stdout))
+			full = append(full, RunProgram(p, cur, nil, probeKeyOrder, 0).Stdout)
+		}
+		e.bounds, e.cum, e.full = append(e.bounds, bounds), append(e.cum, cum), append(e.full, full)
+		done = append(done, ModelFile{Name: name, Values: nodes})
+	}
+	return e
+}
+
+func c03MultiRun(c *fw.Ctx, cs *c03Multi, ex *c03MultiExpect, sched []int) ([]c03Point, *fw.Violation) {
+	w := &c03Writer{}
+	var readers []*c03Reader
+	var files []drive.File
+	for f, mf := range cs.Files {
+		r := &c03Reader{data: []byte(mf.Data), endErr: io.EOF, bounds: ex.bounds[f], out: w, file: f}
+		if mf.Fault {
+			r.endErr = errBoom
+		}
+		if f == 0 {
+			r.sched = sched
+		} else {
+			r.env = readers[0]
+			r.prior = ex.cum[f][0]
+		}
+		// the per-value monitor is sound while the stream is clean up to the point looked at: offsets below the first fault
+		r.cum = ex.cum[f]
+		readers = append(readers, r)
+		files = append(files, drive.File{Name: fmt.Sprintf("in%d.json", f+1), Reader: r})
+	}
+	s := drive.Spec{Program: Source(c03Progs[cs.Prog], Style{}), Files: files, Stdout: w}
+	o := run(c, s)
+	c.Traces++
+	p0 := readers[0]
+	c.Transitions += int64(len(p0.points))
+	fail := func(what string, want string) *fw.Violation {
+		o.Ev = nil
+		csv := *cs
+		csv.Sched = make([]int, len(p0.points))
+		for i, p := range p0.points {
+			csv.Sched[i] = p.choice
+		}
+		b, _ := json.Marshal(csv)
+		return &fw.Violation{What: what, Spec: b, Key: fw.KeyOf("C03", "multi", fmt.Sprint(cs.Files, cs.Prog), fmt.Sprint(csv.Sched)),
+			Detail: map[string]any{"program": s.Program, "inputs": cs.Files, "read_answers": c03DescribeMulti(readers), "want_stdout": want, "got": o}}
+	}
+	if p0.diverged {
+		panic("c03: schedule replay met a shorter menu than recorded")
+	}
+	if o.Kind == drive.KPanic || o.Kind == drive.KOther {
+		return p0.points, fail("implementation panicked or returned a foreign error", "")
+	}
+	// the first input that is faulty, by content or by its reader
+	bad := len(cs.Files)
+	for f, mf := range cs.Files {
+		if ex.status[f] != StreamClean || mf.Fault {
+			bad = f
+			break
+		}
+	}
+	if bad == len(cs.Files) {
+		last := len(cs.Files) - 1
+		want := ex.full[last][ex.nvals[last]]
+		if o.Kind != drive.KNone {
+			return p0.points, fail("clean inputs ended in an error", want)
+		}
+		if o.Stdout != want {
+			return p0.points, fail("output of several clean inputs differs from processing their values one after another", want)
+		}
+	} else {
+		if o.Kind == drive.KNone {
+			return p0.points, fail("a truncated / malformed / unreadable input was silently treated as end of input", "")
+		}
+		if o.Kind != drive.KJson {
+			return p0.points, fail("an input fault was not reported as a JSON input error", "")
+		}
+		if want := fmt.Sprintf("in%d.json", bad+1); o.FileName != want {
+			return p0.points, fail("the JSON input error does not name the faulty input", want)
+		}
+		minVals, maxVals := ex.nvals[bad], ex.nvals[bad]
+		if cs.Files[bad].Fault && ex.status[bad] != StreamError {
+			n := 0
+			for i, b := range ex.bounds[bad] {
+				if b < len(cs.Files[bad].Data) {
+					n = i + 1
+				}
+			}
+			minVals = n
+		}
+		ok := false
+		for n := minVals; n <= maxVals; n++ {
+			if len(o.Stdout) == ex.cum[bad][n] && strings.HasPrefix(ex.full[bad][n], o.Stdout) {
+				ok = true
+			}
+		}
+		if !ok {
+			return p0.points, fail("before the JSON input error, the output is not that of the complete values of this and all earlier inputs", ex.full[bad][minVals][:ex.cum[bad][minVals]])
+		}
+	}
+	if p0.late != "" {
+		return p0.points, fail("the interpreter asked for later input before processing a complete value: "+p0.late, "")
+	}
+	c.Outcome(fmt.Sprintf("multi: first faulty input %d of %d", bad+1, len(cs.Files)))
+	return p0.points, nil
+}
+
+func c03DescribeMulti(readers []*c03Reader) []string {
+	var out []string
+	pos := make([]int, len(readers))
+	zr := make([]int, len(readers))
+	for _, p := range readers[0].points {
+		r := readers[p.file]
+		rr := &c03Reader{data: r.data, endErr: r.endErr, bounds: r.bounds, pos: pos[p.file], zeroRun: zr[p.file]}
+		a := rr.menu()[p.choice]
+		pre := fmt.Sprintf("in%d: ", p.file+1)
+		switch {
+		case a.zero:
+			out = append(out, pre+"(0, nil)")
+			zr[p.file]++
+			continue
+		case a.n == 0:
+			out = append(out, pre+fmt.Sprintf("(0, %v)", r.endErr))
+		case a.end:
+			out = append(out, pre+fmt.Sprintf("(%q, %v)", r.data[pos[p.file]:pos[p.file]+a.n], r.endErr))
+		default:
+			out = append(out, pre+fmt.Sprintf("%q", r.data[pos[p.file]:pos[p.file]+a.n]))
+		}
+		pos[p.file] += a.n
+		zr[p.file] = 0
+	}
+	return out
+}
+
+func c03MultiExplore(c *fw.Ctx, cs *c03Multi, ex *c03MultiExpect, prefix []int, used int) *fw.Violation {
+	points, v := c03MultiRun(c, cs, ex, prefix)
+	if v != nil {
+		return v
+	}
+	c.StatesN += int64(len(points) - len(prefix))
+	if used >= cs.Bound {
+		return nil
+	}
+	for i := len(prefix); i < len(points); i++ {
+		for alt := 1; alt < points[i].menu; alt++ {
+			np := make([]int, i+1)
+			for k := 0; k < i; k++ {
+				np[k] = points[k].choice
+			}
+			np[i] = alt
+			if v := c03MultiExplore(c, cs, ex, np, used+1); v != nil {
+				return v
+			}
+		}
+	}
+	return nil
+}
+
+var c03MultiFirst = []string{`1`, "[1,2] 5\n", ``, `{"a":1}`, `"a" `}
+
+// c03MultiStreams: all streams of <= 2 values for a later input
+func c03MultiStreams() []string {
+	out := []string{"", "\n"}
+	for _, a := range c03Values {
+		out = append(out, a, a+"\n")
+		for _, b := range c03Values {
+			for _, sp := range []string{"", " ", "\n"} {
+				if sp == "" && c03NeedsSep(a, b) {
+					continue
+				}
+				out = append(out, a+sp+b)
+			}
+		}
+	}
+	return out
+}
+
+func c03MultiFamily(c *fw.Ctx, firstIdx int, thorough bool) {
+	first := c03MultiFirst[firstIdx]
+	bound := 1
+	if thorough {
+		bound = 2
+	}
+	for _, second := range c03MultiStreams() {
+		if c.Expired() {
+			return
+		}
+		for prog := range c03Progs {
+			// clean: both readers explored
+			cs := &c03Multi{Files: []c03MultiFile{{Data: first}, {Data: second}}, Prog: prog, Bound: bound}
+			ex := c03MultiModel(prog, cs.Files)
+			c.Do(func() any { return cs }, func() *fw.Violation { return c03MultiExplore(c, cs, &ex, nil, 0) })
+			if prog != 0 {
+				continue
+			}
+			// every truncation point of the later input and a read error at every position of it (offset 0 included)
+			for k := 0; k <= len(second); k++ {
+				for _, fault := range []bool{false, true} {
+					if !fault && k == len(second) {
+						continue
+					}
+					t := &c03Multi{Files: []c03MultiFile{{Data: first}, {Data: second[:k], Fault: fault}}, Prog: prog, Bound: 1}
+					tex := c03MultiModel(prog, t.Files)
+					c.Do(func() any { return t }, func() *fw.Violation { return c03MultiExplore(c, t, &tex, nil, 0) })
+					if k <= 1 {
+						// and as the third of three inputs
+						t3 := &c03Multi{Files: []c03MultiFile{{Data: first}, {Data: "[7] 8"}, {Data: second[:k], Fault: fault}}, Prog: prog, Bound: 1}
+						tex3 := c03MultiModel(prog, t3.Files)
+						c.Do(func() any { return t3 }, func() *fw.Violation { return c03MultiExplore(c, t3, &tex3, nil, 0) })
+					}
+				}
+			}
+		}
+		c.State(fmt.Sprintf("two inputs: first %q, second with %d values", first, len(ParseStream([]byte(second)).Values)))
+	}
+}
+
+// ----- large values: the reader hands out fixed-size chunks; buffer-size thresholds of whatever sits between reader and decoder -----
+
+type c03Big struct {
+	Size  int `json:"size"`  // bytes of the large value
+	Lead  int `json:"lead"`  // small records before it
+	Tail  int `json:"tail"`  // small records after it
+	Chunk int `json:"chunk"` // bytes per Read (0: as many as asked for)
+	Shape int `json:"shape"` // 0: object with a long string, 1: array of numbers
+}
+
+type chunkReader struct {
+	data  []byte
+	pos   int
+	chunk int
+}
+
+func (r *chunkReader) Read(p []byte) (int, error) {
+	if r.pos >= len(r.data) {
+		return 0, io.EOF
+	}
+	n := len(r.data) - r.pos
+	if n > len(p) {
+		n = len(p)
+	}
+	if r.chunk > 0 && n > r.chunk {
+		n = r.chunk
+	}
+	copy(p, r.data[r.pos:r.pos+n])
+	r.pos += n
+	return n, nil
+}
+
+func c03BigData(b c03Big) string {
+	var sb strings.Builder
+	rec := func(i int) { fmt.Fprintf(&sb, "{\"n\":%d}\n", i) }
+	for i := 0; i < b.Lead; i++ {
+		rec(i)
+	}
+	if b.Shape == 0 {
+		head := fmt.Sprintf("{\"n\":%d,\"pad\":\"", b.Lead)
+		sb.WriteString(head)
+		sb.WriteString(strings.Repeat("x", b.Size-len(head)-2))
+		sb.WriteString("\"}")
+	} else {
+		head := fmt.Sprintf("{\"n\":%d,\"pad\":[", b.Lead)
+		sb.WriteString(head)
+		n := (b.Size - len(head) - 3) / 2
+		sb.WriteString(strings.Repeat("1,", n))
+		sb.WriteString(strings.Repeat(" ", b.Size-len(head)-3-2*n))
+		sb.WriteString("1]}")
+	}
+	sb.WriteString("\n")
+	for i := 0; i < b.Tail; i++ {
+		rec(b.Lead + 1 + i)
+	}
+	return sb.String()
+}
+
+func c03BigCheck(c *fw.Ctx, b c03Big) *fw.Violation {
+	data := c03BigData(b)
+	var want strings.Builder
+	for i := 0; i <= b.Lead+b.Tail; i++ {
+		fmt.Fprintf(&want, "%d\n", i)
+	}
+	want.WriteString(fmt.Sprintf("end %d\n", b.Lead+b.Tail+1))
+	s := drive.Spec{Program: "BEGINFILE { print $.n; c++ }\nEND { print \"end\", c }", Files: []drive.File{{Name: "in.json", Reader: &chunkReader{data: []byte(data), chunk: b.Chunk}}}, Budget: 50_000_000}
+	o := run(c, s)
+	c.Traces++
+	c.Transitions += int64(b.Lead + b.Tail + 1)
+	if v := expect(s, o, want.String(), drive.KNone, fmt.Sprintf("a stream of %d small records, one value of %d bytes, %d small records, delivered %d bytes per Read", b.Lead, b.Size, b.Tail, b.Chunk)); v != nil {
+		if d, ok := v.Detail.(detail); ok {
+			d.Files = nil
+			v.Detail = d
+		}
+		return v
+	}
+	c.Outcome("large value stream clean")
+	return nil
+}
+
+var c03BigSizes = []int{511, 512, 513, 4095, 4096, 4097, 32768, 65535, 65536, 65537, 65600, 70000, 100000, 131071, 131072, 131073, 200000, 300001}
+var c03BigChunks = []int{0, 1 << 20, 131072, 100000, 65537, 65536, 65535, 32768, 10000, 4097, 4096, 4095, 1000, 512, 511, 64}
+
 var c03Values = []string{`1`, `"a"`, `[]`, `[1,2]`, `{"a":1}`, `null`, `true`, `-0.5e1`}
 
 func c03NeedsSep(prev, next string) bool {
@@ -483,9 +843,10 @@ func init() {
 		ID: "C03",
 		Rule: "value streams: all sequences of <= 3 values over {1, \"a\", [], [1,2], {\"a\":1}, null, true, -0.5e1} x separators {none where the grammar allows, blank, newline} x trailing newline, run with two programs (per-value output; a counter across values); " +
 			"for each stream: every chunking when it is short, otherwise every schedule with <= k deviating Read answers (1 byte, up to each value boundary, boundary+1, (0,nil), last bytes together with EOF) plus the all-one-byte schedule; every truncation point; a sticky read error at every position (alone and together with the last bytes); " +
-			"every single-byte replacement and insertion from 10 bytes at every position; plus fixed faulty streams and two-file cases; oracle: an independent RFC 8259 stream scanner splits the bytes into complete values + clean/error/truncated, the model gives the output of the complete values, " +
+			"every single-byte replacement and insertion from 10 bytes at every position; plus fixed faulty streams; SEVERAL INPUTS: 5 first inputs x all later inputs of <= 2 values, both readers explored, every truncation point and a read error at every position (offset 0 included) of the later input, also as third of three inputs, " +
+			"with the monitor also flagging any Read on a later input while output of the earlier inputs is outstanding; LARGE VALUES: one value of 18 sizes around 512 B ... 300 kB (buffer thresholds) after 0 / 3 and before 1 / 5 / 64 / 5000 small records, delivered in 16 fixed Read sizes; oracle: an independent RFC 8259 stream scanner splits the bytes into complete values + clean/error/truncated, the model gives the output of the complete values, " +
 			"a fault must be a JSON error naming the file, and a monitor on the reader/writer pair flags any Read issued while a complete value plus one following byte is already handed out and that value's output is not yet written; states = choice points (Read calls) visited; transitions = Read answers given",
-		Plan: func(t fw.Tier) int { return len(c03Values)*16 + 1 },
+		Plan: func(t fw.Tier) int { return len(c03Values)*16 + 1 + len(c03MultiFirst) + len(c03BigSizes) },
 		Bound: func(t fw.Tier) string {
 			if t == fw.Thorough {
 				return "all chunkings of streams <= 14 bytes, k=3 deviations beyond; truncation / fault at every position with 1 deviation; all single-byte corruptions"
@@ -505,6 +866,29 @@ func init() {
 				}
 				return
 			}
+			if u > len(c03Values)*16 {
+				k := u - len(c03Values)*16 - 1
+				if k < len(c03MultiFirst) {
+					c03MultiFamily(c, k, c.Thorough())
+					return
+				}
+				size := c03BigSizes[k-len(c03MultiFirst)]
+				for _, lead := range []int{0, 3} {
+					for _, tail := range []int{1, 5, 64, 5000} {
+						for _, chunk := range c03BigChunks {
+							for shape := 0; shape < 2; shape++ {
+								if !c.Thorough() && (shape == 1 || tail == 64) && chunk != 0 && chunk != 65536 && chunk != 4096 {
+									continue
+								}
+								b := c03Big{Size: size, Lead: lead, Tail: tail, Chunk: chunk, Shape: shape}
+								c.Do(func() any { return b }, func() *fw.Violation { return c03BigCheck(c, b) })
+							}
+						}
+					}
+				}
+				c.State(fmt.Sprintf("large value of %d bytes", size))
+				return
+			}
 			first, part := u/16, u%16
 			for i, s := range c03Streams(first) {
 				if i%16 != part {
@@ -517,6 +901,28 @@ func init() {
 			}
 		},
 		Replay: func(c *fw.Ctx, raw json.RawMessage) *fw.Violation {
+			var probe struct {
+				Files []c03MultiFile `json:"files"`
+				Size  int            `json:"size"`
+			}
+			if !unmarshal(raw, &probe) {
+				return nil
+			}
+			if probe.Size > 0 {
+				var b c03Big
+				unmarshal(raw, &b)
+				return c03BigCheck(c, b)
+			}
+			if probe.Files != nil {
+				var m c03Multi
+				unmarshal(raw, &m)
+				ex := c03MultiModel(m.Prog, m.Files)
+				if m.Sched != nil {
+					_, v := c03MultiRun(c, &m, &ex, m.Sched)
+					return v
+				}
+				return c03MultiExplore(c, &m, &ex, nil, 0)
+			}
 			var cs c03Case
 			if !unmarshal(raw, &cs) {
 				return nil
